@@ -54,9 +54,10 @@ theorem C01_stable_server (s : Server) (thisRun : Nat) (cl : Cli)
   runClient_idle s thisRun cl hd hr hm hl hq
 
 /-- Stability, client: a frame without messages and with nothing applicable buffered leaves the
-client's replicated state exactly as it was. -/
+client's replicated state exactly as it was (`acks` and `notified` are the frame's outputs:
+what it acknowledged and which ticks it reported as fully received). -/
 theorem C01_stable_client (c : Client) (hc : c.connected = true) (hl : c.lastNotDisconnected = true)
-    (hb : c.buffered = []) (ha : c.acks = []) : frame c [] [] = c := by
+    (hb : c.buffered = []) (ha : c.acks = []) (hn : c.notified = []) : frame c [] [] = c := by
   unfold frame applyBuffered
   cases c
   simp_all
